@@ -197,8 +197,21 @@ func (d *DB) NewBatch() db.Batch {
 	return NewBatch(d.db.NewBatch(), d, d.listener)
 }
 
+// The size of a batch is a capacity hint. Pebble reslices the preallocated buffer to its 12-byte
+// batch header whenever the batch is reset (Close, Commit), so a hint below that, on a batch
+// that never grew because nothing was written to it, makes Close and Write panic: never ask
+// for less than the header.
+const minBatchSizeHint = 12
+
+func batchSizeHint(size int) int {
+	if size > 0 && size < minBatchSizeHint {
+		return minBatchSizeHint
+	}
+	return size
+}
+
 func (d *DB) NewBatchWithSize(size int) db.Batch {
-	return NewBatch(d.db.NewBatchWithSize(size), d, d.listener)
+	return NewBatch(d.db.NewBatchWithSize(batchSizeHint(size)), d, d.listener)
 }
 
 func (d *DB) NewIndexedBatch() db.IndexedBatch {
@@ -206,7 +219,7 @@ func (d *DB) NewIndexedBatch() db.IndexedBatch {
 }
 
 func (d *DB) NewIndexedBatchWithSize(size int) db.IndexedBatch {
-	return NewBatch(d.db.NewIndexedBatchWithSize(size), d, d.listener)
+	return NewBatch(d.db.NewIndexedBatchWithSize(batchSizeHint(size)), d, d.listener)
 }
 
 func (d *DB) NewIterator(prefix []byte, withUpperBound bool) (db.Iterator, error) {
